@@ -239,11 +239,11 @@ class G2(MasterIO):
         # for all trimming loops
         numb_loops = int( self.read_next_non_whitespace() )
         all_loops  = []
+        space_epsilon = state.parametric_absolute_tolerance
         for i in range(numb_loops):
 
             # for all cuve pieces of that loop
             numb_crvs, space_epsilon = next(self.fstream).split()
-            state.parametric_absolute_tolerance = float(space_epsilon)
             one_loop = []
             for j in range(int(numb_crvs)):
 
@@ -265,7 +265,9 @@ class G2(MasterIO):
                 self.trimming_curves.append(two_curves[1])
             all_loops.append(one_loop)
 
-        return TrimmedSurface(surface.bases[0], surface.bases[1], surface.controlpoints, surface.rational, all_loops, raw=True)
+        # the tolerance given in the file applies to this object only, not to the global settings
+        with state.state(parametric_absolute_tolerance=float(space_epsilon)):
+            return TrimmedSurface(surface.bases[0], surface.bases[1], surface.controlpoints, surface.rational, all_loops, raw=True)
 
     g2_type = [100, 200, 700] # curve, surface, volume identifiers
     classes = [Curve, Surface, Volume]
